@@ -1525,6 +1525,12 @@ func (c *Conn) readHeader(b []byte, res *fasthttp.Response) error {
 			return err
 		}
 
+		if len(b) == 0 && hf.Empty() {
+			// The fragment ended in a dynamic table size update, which
+			// consumes input without producing a field.
+			break
+		}
+
 		// A response carries exactly one pseudo-header, :status, and it must
 		// come before any regular field.
 		// https://httpwg.org/specs/rfc7540.html#rfc.section.8.1.2.4
